@@ -1,14 +1,15 @@
 /* C12: file_append (lib/sqfs/src/io/ostream.c) - what the stream receives for
- * one append (pending hole, then the data) and the status do not depend on
- * how write(2) splits any of the transfers. All three loops on the path
- * (realize_sparse chunk loop, write_all inside it, write_all for the data)
- * are closed by loop contracts.
+ * one append (the pending hole, then the data) and the status do not depend
+ * on how write(2) splits any of the transfers. The function itself is
+ * loop-free; realize_sparse and write_all are replaced by their contracts
+ * (c12_ostream_contracts.h), each proved on the real function with loop
+ * contracts in realize_sparse.c / write_all.c: they may stop after any prefix.
  *
  *  C12.append.hole_deferred   data == NULL or size == 0: no system call, the
  *                             hole only grows (sparse_count, size += size)
- *  C12.append.call_args       zero phase: <= min(1024, rest of hole) bytes;
- *                             data phase: (data + done, n - done); no data
- *                             byte is offered before the hole is complete
+ *  C12.append.hole_first      the hole is realised first, before any data
+ *  C12.append.call_args       write_all is called once, with (data, n), only
+ *                             after the hole is complete
  *  C12.append.exact           ret == 0 ==> accepted + seeked == hole + n and
  *                             sparse_count == 0
  *  C12.append.content         stream = hole zeros (if written) ++ data, each
@@ -32,34 +33,13 @@ bool g_seek_failed;
 
 static void c12_write_pre(int fd, const void *buf, size_t n)
 {
-	VERIF_ASSERT(fd == g_fd, "C12.append.call_args");
-	if (g_total < g_zeros)
-		VERIF_ASSERT(n >= 1 && n <= 1024 && n <= g_zeros - g_total,
-			     "C12.append.call_args");
-	else
-		VERIF_ASSERT(g_seeked + g_zeros == g_hole &&
-			     (const uint8_t *)buf == g_data0 + (g_total - g_zeros) &&
-			     n == g_n0 - (g_total - g_zeros),
-			     "C12.append.call_args");
+	VERIF_ASSERT(fd == g_fd && g_wa_calls == 0 && g_total == g_zeros &&
+		     g_seeked + g_zeros == g_hole && !g_seek_failed &&
+		     (const uint8_t *)buf == g_data0 && n == g_n0,
+		     "C12.append.call_args");
 }
-
-int sqfs_native_file_seek(sqfs_file_handle_t fd, sqfs_s64 offset,
-			  sqfs_u32 flags)
-{
-	int r = verif_nd_int("seek.ret");
-
-	VERIF_ASSERT(fd == g_fd && offset >= 0 && (sqfs_u64)offset == g_hole &&
-		     flags == (SQFS_FILE_SEEK_CURRENT | SQFS_FILE_SEEK_TRUNCATE) &&
-		     g_seeks == 0 && g_total == 0 && g_zeros == 0,
-		     "C12.append.seek_args");
-	g_seeks++;
-	if (r != 0) {
-		g_seek_failed = true;
-		return r;
-	}
-	g_seeked += (sqfs_u64)offset;
-	return 0;
-}
+#define C12_WANT_SPARSE_CONTRACT
+#include "C12/c12_ostream_contracts.h"
 
 #ifndef WR_MAX
 #define WR_MAX 0x7fffffffffffULL
